@@ -17,6 +17,21 @@ def parse(text, native=None, **kw):
     return _m("jaqalpaq.parser.parser").parse_jaqal_string(text, **kw)
 
 
+def parse_file(path, native=None, **kw):
+    kw.setdefault("autoload_pulses", False)
+    if native is not None:
+        kw["inject_pulses"] = native
+    return _m("jaqalpaq.parser.parser").parse_jaqal_file(path, **kw)
+
+
+def parse_header(text):
+    return _m("jaqalpaq.parser.parser").parse_jaqal_string_header(text)
+
+
+def parse_file_header(path):
+    return _m("jaqalpaq.parser.parser").parse_jaqal_file_header(path)
+
+
 def parse_sexpr(text):
     return _m("jaqalpaq.parser.parser").parse_to_sexpression(text)
 
